@@ -61,6 +61,14 @@ def regex_pred(ex, pattern, insensitive, hay):
     hkey = hay if isinstance(hay, bytes) else id(hay)
     key = ('re', pattern, insensitive, hkey)
     r = ex.uni.memo.get(key)
+    if r is None and getattr(ex.uni, 'interpret_regex', True):
+        from . import rx
+        try:
+            r = rx.is_match(pattern, insensitive, hay)
+            ex.uni.memo[key] = r
+            ex.uni.memo.setdefault(('re_interpreted',), set()).add((pattern, insensitive))
+        except rx.RxUnsupported:
+            r = None
     if r is None:
         r = ex.uni.fresh('re<%s|%s>' % (pattern.decode('utf-8', 'replace'), 'i' if insensitive else ''), z3.BoolSort())
         uses = ex.uni.memo.setdefault(('re_uses', pattern, insensitive), [])
